@@ -438,3 +438,11 @@ def sf_seeded_with(eng, st, args, kw, node):
 
 
 BuiltinMixin.SPEC_FUNCS.update({"seeded_with": sf_seeded_with})
+
+
+def sf_own_streams(eng, st, args, kw, node):
+    """no random-drawing callable was submitted to a process pool without seeding its own stream"""
+    return _b(z3.BoolVal("shared_stream_submit" not in st.ghost))
+
+
+BuiltinMixin.SPEC_FUNCS.update({"own_streams": sf_own_streams})
